@@ -36,3 +36,11 @@ Print Assumptions C16_option_columns_kept.
 Theorem C16_nonvacuous : nonvacuous_witness.
 Proof. exact nonvacuous_proof. Qed.
 Print Assumptions C16_nonvacuous.
+
+(* the JSON text in between: json.loads inverts json.dumps (ASCII-escaped, default separators) on EVERY value built from strings
+   without surrogate code points, None, booleans, lists and dicts — any nesting, any characters (quotes, backslashes, control
+   characters, non-ASCII, astral code points written as surrogate pairs) *)
+Require Import PX.Model.Json PX.Proofs.Json.
+Theorem C16_json_text_round_trip : forall v, jv_ok v = true -> loads (dumps v) = Some v.
+Proof. exact loads_dumps. Qed.
+Print Assumptions C16_json_text_round_trip.
